@@ -24,8 +24,13 @@ STEPV = {"ustar": 0.05, "mol": -35.0, "wind_speed": 0.75, "wind_dir": 37.0}
 Z0 = 0.07
 
 
+ZERO_TOKENS = {}        # instantiation with zeros: field -> token whose concrete value is exactly 0.0 (wind from due north, calm, ...)
+
+
 def val(f, tok):
     """token -> concrete number: 0 = the scalar, j = j-th list entry"""
+    if ZERO_TOKENS.get(f) == tok:
+        return 0.0
     return BASE[f] + STEPV[f] * tok + (0.011 if tok == 0 else 0.0)
 
 
@@ -157,10 +162,16 @@ def main_met():
                 "is enumerated by TLC and replayed through MetConfig.validate, parse_config_dict, n_timesteps and get_step; "
                 "non-trivial = the forcing has a list-valued field or timestamps")
     n_runs = 0
-    for e in r.emitted:
+    # two instantiations of the tokens: distinct non-zero numbers; and the same with the scalar / the first list entry of every
+    # field exactly 0.0 (a value Python treats as false: wind from due north, zero speed, ...) - token level only, the driver
+    # runs below use the first one
+    passes = [(e, {}) for e in r.emitted] + [(e, {f: (0 if e["m"][f] == 0 else 1) for f in FIELDS}) for e in r.emitted if e["valid_spec"]]
+    for e, zeros in passes:
+        ZERO_TOKENS.clear()
+        ZERO_TOKENS.update(zeros)
         m = e["m"]
         nontrivial = any(1 <= m[f] <= 50 for f in FIELDS) or m["ts"] != ABSENT
-        chk.case(json.dumps(m, sort_keys=True), nontrivial)
+        chk.case(json.dumps([m, bool(zeros)], sort_keys=True), nontrivial)
         kw = met_kwargs(m)
         kw_nonone = {k: v for k, v in kw.items() if v is not None or k in ("ustar", "z0", "timestamps")}
         mc = MetConfig(**{k: v for k, v in kw.items() if v is not None})
@@ -213,6 +224,7 @@ def main_met():
             if got != want:
                 chk.violation("get_step(%d) = %s, the specification says %s" % (i, got, want), sc, klass=dict(klass_met(m), check="step"))
                 break
+    ZERO_TOKENS.clear()
     # drivers: the timeseries driver and the CLI loop iterate exactly NSteps times with the right parameters
     from bldfm import run_bldfm_timeseries
 
